@@ -106,6 +106,9 @@ class ConfPair(Pair):
 
     def __enter__(self):
         self.sim.__enter__()
+        from sim.deviant import Deviance
+        self.dev = Deviance(self.sim)
+        self.dev.__enter__()
         ca, cb = conf_pair(IPA, IPB, **self.conf)
         self.edit(ca, cb)
         self.A = self.sim.add_endpoint('A', [IPA], ca)
